@@ -24,7 +24,7 @@ RULE = ('inputs: corpus and Annex A derivations biased towards nesting (blocks, 
 ASSUMPTIONS = ['structural depth of the output is computed from the refjs tree of the output itself; continuation lines '
                'of multi-line string / comment tokens and lines that start with a comment are exempt']
 BUDGET_S = {'quick': 60, 'thorough': 700}
-REQUIRED_HITS = ['pretty_print', 'used_printer', 'lines_checked', 'Indentator.indent', 'Indentator.dedent', 'level_zero_at_end']
+REQUIRED_HITS = ['pretty_print', 'used_printer', 'shape', 'lines_checked', 'Indentator.indent', 'Indentator.dedent', 'level_zero_at_end']
 FLOOR = {'quick': 1500, 'thorough': 30000}
 
 INDENTS = ['  ', '\t', '', ' ', '   ', '    ', ' \t']
@@ -233,9 +233,26 @@ def check(ctx, levels, text, indents, with_comments, origin, history=False):
             break
 
 
+# small structural shapes, in particular programs that open several blocks before their first token
+SHAPES = ['{{}}', ';{{}}', '{{};}', '{{}a;}', '{{{}}{}}', '{;{;}}', '{{}{}}', '{{{}}}', 'switch(a){}', 'switch(a){case 1:}',
+          'switch(a){case 1:{}}', 'switch(a){default:case 1:;}', '{switch(a){case 1:{{}}}}', 'switch(a){case 1:case 2:}',
+          'if(a){}else{}', 'if(a){{}}else{{}}', 'x={}', 'x={a:{}}', 'x={a:{b:{}}}', 'x=[{},{a:{}}]', '({})', '({a:{}})',
+          'function f(){}', 'function f(){{}}', 'x=function(){}', '(function(){{}})', 'try{}catch(e){}finally{}',
+          'try{{}}catch(e){{}}finally{{}}', 'do{}while(a)', 'do{{}}while(a)', 'for(;;){}', 'for(;;){{}}', 'for(a in b){{}}',
+          'a:{}', 'a:{{}}', 'with(a){}', 'with(a){{}}', 'x={get a(){}, set a(v){{}}}', '{/*c*/}', '{{/*c*/}}', '{//c\n}',
+          '{{//c\n}}', '/*c*/{{}}', '{{}}//c', '{{}}\n{{}}', 'while(a){}', 'while(a){{}}', 'if(a){}', 'if(a){{}}', '']
+
+
 def run(ctx):
     levels = Levels(ctx).install()
     try:
+        for k, text in enumerate(SHAPES):
+            if k % ctx.nshards != ctx.shard:
+                continue
+            for wc in (False, True):
+                check(ctx, levels, text, INDENTS, wc, 'shape', history=False)
+                check(ctx, levels, text, INDENTS[:2], wc, 'shape', history=True)
+            ctx.hit('shape')
         def opts_fn(i, r):
             return jsgen.Opts(clean=(i % 2 == 0), max_depth=6 + (i % 3), max_stmts=4, unicode_idents=(i % 5 == 1), string_continuations=(i % 3 == 0))
         progs = work.Programs(ctx, ctx.pick(300, 7000), opts_fn=opts_fn,
